@@ -648,7 +648,12 @@ pub fn gen(rng: &mut Rng) -> J {
     }
     if rng.chance(1, 6) { ops.push(json!({"op": "SetDonation", "n": jn(1 + rng.below(3_000_000))})); ops.push(json!({"op": "SetTreasury", "n": jn(1_000_000_000)})); }
     if rng.chance(1, 5) { ops.push(json!({"op": "AddRequiredSigner", "k": 1 + rng.below(12)})); }
-    if rng.chance(1, 4) { ops.push(json!({"op": "SetAux", "label_n": jn(rng.below(1000)), "len": 1 + rng.below(60), "alonzo": rng.chance(1, 2)})); }
+    if rng.chance(1, 4) {
+        let (label, len, alonzo) = (rng.below(1000), 1 + rng.below(60), rng.chance(1, 2));
+        ops.push(json!({"op": "SetAux", "label_n": jn(label), "len": len, "alonzo": alonzo}));
+        // set again: the same content in the other layout, or other content
+        match rng.below(5) { 0 => ops.push(json!({"op": "SetAux", "label_n": jn(label), "len": len, "alonzo": !alonzo})), 1 => ops.push(json!({"op": "SetAux", "label_n": jn(label + 1), "len": len, "alonzo": alonzo})), _ => {} }
+    }
     if rng.chance(1, 5) { ops.push(json!({"op": "SetTtl", "n": jn(rng.edge_u64())})); }
     if rng.chance(1, 8) { ops.push(json!({"op": "SetMinFee", "n": jn(150_000 + rng.below(400_000))})); }
     // collateral: inputs (pure ADA or asset-carrying), then one of the three helpers (before or after balancing)
@@ -692,7 +697,8 @@ pub fn gen(rng: &mut Rng) -> J {
     for i in (1..ops.len()).rev() { let j = rng.below(i as u64 + 1) as usize; ops.swap(i, j); }
     let to = json!({"kind": *rng.pick(&["ent", "base", "byron"]), "k": 15});
     if let Some(pct) = col_pct {
-        let us: Vec<u64> = (1..=nu).collect();
+        // usually everything is offered; sometimes so little that the balancing step of the helper has to fail
+        let us: Vec<u64> = if rng.chance(1, 5) { vec![1 + rng.below(nu)] } else { (1..=nu).collect() };
         ops.retain(|o| o["op"] != "AddCollateral");
         let cu = 1 + rng.below(nu);
         ops.insert(0, json!({"op": "AddCollateral", "u": cu}));
@@ -801,7 +807,12 @@ pub fn gen_plutus(rng: &mut Rng) -> J {
             if rng.chance(1, 4) { mints.push(json!({"mp": 9, "n": [66], "amt": {"neg": false, "mag_n": jn(5)}})); continue; }
             let sid = sids.remove(rng.below(sids.len() as u64) as usize);
             rid += 1;
-            mints.push(json!({"n": [65], "amt": {"neg": false, "mag_n": jn(1 + rng.below(9))}, "pw": {"s": sid, "rid": rid, "script": src[&sid], "ex": ex(rng)}}));
+            let mag = 1 + rng.below(9);
+            let pw = json!({"s": sid, "rid": rid, "script": src[&sid], "ex": ex(rng)});
+            mints.push(json!({"n": [65], "amt": {"neg": false, "mag_n": jn(mag)}, "pw": pw}));
+            // a second addition under the same witness that cancels the first (a zero entry must never be emitted, and the other
+            // policies' pointers must not be counted against a policy that is not in the mint field)
+            if rng.chance(1, 6) { mints.push(json!({"n": [65], "amt": {"neg": true, "mag_n": jn(mag)}, "pw": pw})); }
         }
         ops.push(json!({"op": "SetMint", "mints": mints}));
     }
@@ -809,7 +820,7 @@ pub fn gen_plutus(rng: &mut Rng) -> J {
         let n = 1 + rng.below(3);
         let mut certs = vec![];
         for i in 0..n {
-            let kind = *rng.pick(&[1u64, 2, 7, 8, 9, 14, 15, 16, 17, 18]);
+            let kind = *rng.pick(&[1u64, 2, 7, 8, 9, 14, 15, 16, 17, 18, 1, 2, 7, 8, 9, 0]);   // 0: legacy registration, needs no witness - a script witness offered for it must be refused
             if rng.chance(1, 10) { certs.push(json!({"k": kind, "g": true, "pool": 20 + i, "coin_n": jn(2_000_000), "cred2": {"k": 8}, "plain_script": 1 + rng.below(5)})); continue; }
             match rng.below(3) {
                 0 => { let sid = 1 + rng.below(5); rid += 1; certs.push(json!({"k": kind, "g": true, "pool": 20 + i, "coin_n": jn(2_000_000), "pw": {"s": sid, "rid": rid, "script": src[&sid], "datum": "none", "ex": ex(rng)}})); }
